@@ -68,6 +68,8 @@ class SProgram(Program):
     def lean_ty(self, t):
         if t in (REF, REFS):
             return t
+        if t == STR:
+            return 'Bytes'
         if t == SELF or t == NONE:
             return 'Unit'
         if is_opt(t):
@@ -132,7 +134,7 @@ class SProgram(Program):
             raise Untranslatable(f'recursive method {owner}.{name}')
         base = lname(name.strip('_') if name.startswith('__') else name)
         if (owner, name) in self.poly:
-            base += ''.join('_' + TYPE_TAG.get(t, 'x') for t in argtypes)
+            base += ''.join('_' + (t[4:].lower() if t.startswith('obj:') else 'none' if t == NONE else TYPE_TAG.get(t, 'x')) for t in argtypes)
         lean = base if owner == self.main else f'{owner}_{base}'
         if self.names.get(lean, key) != key:
             raise Untranslatable(f'{owner}.{name} is used with different argument types ({self.names[lean][2]} and {tuple(argtypes)})')
@@ -178,6 +180,7 @@ class STr(MTr):
         self.reads = 0
         self.loops = []
         self.in_prop = []
+        self.unwrapped = {}           # source text of an optional expression -> (lean name, type) inside `if <expr> is not None`
         for n in ast.walk(fn):
             if isinstance(n, (ast.FunctionDef, ast.Lambda, ast.Global, ast.Nonlocal, ast.While, ast.Try, ast.With, ast.Break, ast.Continue, ast.Yield,
                               ast.YieldFrom, ast.Await, ast.NamedExpr, ast.Starred)) and n is not fn:
@@ -318,17 +321,21 @@ class STr(MTr):
             if e.attr in ('start', 'stop'):
                 return f'{v.id}_{e.attr}', OPT(NAT)
             raise Untranslatable(f'slice.{e.attr}')
-        if isinstance(v, ast.Name) and self.env.get(v.id, '').startswith('obj:'):
-            c = self.env[v.id][4:]
+        key = ast.unparse(e)
+        if key in self.unwrapped:
+            return self.unwrapped[key]
+        base, bt = self.expr(v)
+        if bt.startswith('obj:'):
+            c = bt[4:]
             d = self.prog.classes[c]
             if e.attr in d['fields']:
                 t = d['attrs'][e.attr]
                 if t.startswith('state:'):
                     t = self.prog.classes[t[6:]]['value']
-                txt = f'{lname(v.id)}.{d["fields"][e.attr]}'
+                txt = f'{base}.{d["fields"][e.attr]}'
                 return (f'({txt} = true)', PROP) if t == BOOL else (txt, t)
             p = self.prog.find_property(c, e.attr)
-            if p is None:
+            if p is None or not isinstance(v, ast.Name):
                 raise Untranslatable(f'attribute .{e.attr} of a {c} is not declared')
 
             class Sub(ast.NodeTransformer):
@@ -450,6 +457,10 @@ class STr(MTr):
         base, bt = self.expr(v)
         if bt == BITS and f.attr == 'tobytes' and not e.args and not e.keywords:
             return f'(bitsToBytes {base})', BYTES
+        if bt == STR and f.attr == 'encode' and not e.args and not e.keywords and self.prog.externs.get('str=utf8'):
+            return base, BYTES                    # declared: a str travels as its UTF-8 bytes
+        if bt == BYTES and f.attr == 'decode' and not e.args and not e.keywords and self.prog.externs.get('str=utf8'):
+            return base, STR
         raise Untranslatable(f'call of .{f.attr} on a {bt}')
 
     def typed_args(self, e):
@@ -680,6 +691,21 @@ class STr(MTr):
             b = branch(some_b, kont, {x: inner})
             self.env = dict(env0)
             return f'match {lname(x)} with\n| none =>\n{indent(a)}\n| some {lname(x)} =>\n{indent(b)}'
+        if (isinstance(t, ast.Compare) and len(t.ops) == 1 and isinstance(t.ops[0], (ast.Is, ast.IsNot)) and isinstance(t.left, ast.Attribute)
+                and isinstance(t.comparators[0], ast.Constant) and t.comparators[0].value is None):
+            x, xt = self.expr(t.left)
+            if is_opt(xt) and not self.pre:
+                key = ast.unparse(t.left)
+                var = self.tmp('v')
+                none_b, some_b = (body_a, body_b) if isinstance(t.ops[0], ast.Is) else (body_b, body_a)
+                a = branch(none_b, kont)
+                self.unwrapped[key] = (var, opt_of(xt))
+                try:
+                    b = branch(some_b, kont)
+                finally:
+                    del self.unwrapped[key]
+                self.env = dict(env0)
+                return f'match {x} with\n| none =>\n{indent(a)}\n| some {var} =>\n{indent(b)}'
         c = self.truth(self.expr(s.test))
         pre = self.take_pre()
         a = branch(body_a, kont)
